@@ -115,6 +115,9 @@ def churn_shard(shard, nshards, seed, tier, exe, nhist):
         cands = [("k%d" % i).encode() for i in range(1500)] + [bytes([97 + i % 26, 97 + i // 26 % 26, 48 + i % 10]) for i in range(1500)]
         # every name length 1..48 (hash functions work on 12-/4-byte blocks with a tail switch; callers' name pointers come at every alignment: the driver rotates it)
         cands += [bytes(97 + (i * 7 + j) % 26 for j in range(L)) for L in range(1, 49) for i in range(8)]
+        # names with bytes >= 0x80 (UTF-8 and arbitrary): a hash that reads them through a signed char type must not depend on where the name sits in memory
+        cands += [bytes(0x80 + (i * 37 + j * 11) % 128 if (j + i) % 3 else 97 + j % 26 for j in range(L)) for L in (1, 2, 3, 4, 5, 7, 9, 11, 12, 13, 17, 23, 24, 25) for i in range(6)]
+        cands += ["é%d" .encode() % i for i in range(20)] + ["日本語%d".encode() % i for i in range(20)]
         cands = list(dict.fromkeys(cands))
         res, cr = core.run_script(exe, [("h", ["HASHFN %d" % hashfn, "HASH " + " ".join("x" + c.hex() for c in cands)])], env=env, tag="c06")
         if cr:
